@@ -2,8 +2,9 @@
    (DecodeDependencies, decodeDependency, ConditionalPackageDependency.String) and of the part
    of portage/depend/atom.go that turns a parsed atom into a DependAtom (makeDA).
    Executable definitions only; proofs live in Proofs/DepParseP.v.
-   Go run-time failures (nil interface method call, failed type assertion) are the explicit
-   outcome RPanic, running out of fuel is RDiverge. *)
+   Go run-time failures are the explicit outcome RPanic (the repaired decoder guards every
+   method call and type assertion, so only the atom parser could hand one up), running out of
+   fuel is RDiverge. *)
 From LC Require Import Lib.Bytes Gen.Consts Model.AtomParse.
 Open Scope list_scope.
 Open Scope N_scope.
@@ -83,53 +84,53 @@ Definition get_token (s : bytes) : token :=
 Inductive dres (A : Type) := ROk (a : A) | RErr | RPanic | RDiverge.
 Arguments ROk {A} a. Arguments RErr {A}. Arguments RPanic {A}. Arguments RDiverge {A}.
 
-(* decodeDependency: ROk (None, rest) is Go's (nil, nil) -- returned for end of input and for
-   a closing parenthesis alike.  [decode_seq] is the loop that collects dependencies until the
-   first nil (used by the "(" case and by DecodeDependencies). *)
-Fixpoint decode_dep (fuel : nat) (s : bytes) {struct fuel} : dres (option dep * bytes) :=
+(* decodeDependency: ROk (None, rest) is Go's (nil, nil), the end of the current group -- end
+   of input at depth 0, a closing parenthesis inside a group.  [decode_seq] is the loop that
+   collects dependencies until the first nil (the "(" case and DecodeDependencies). *)
+Fixpoint decode_dep (fuel : nat) (depth : nat) (s : bytes) {struct fuel} : dres (option dep * bytes) :=
   match fuel with
   | O => RDiverge
   | S f =>
     match get_token s with
-    | TEof => ROk (None, [])
-    | TClose rest => ROk (None, rest)
+    | TEof => match depth with O => ROk (None, []) | S _ => RErr end
+    | TClose rest => match depth with O => RErr | S _ => ROk (None, rest) end
     | TErr => RErr
     | TOpen rest =>
-      match decode_seq f rest with
+      match decode_seq f (S depth) rest with
       | ROk (l, r) => ROk (Some (DGroup 1 [] l), r)
       | RErr => RErr | RPanic => RPanic | RDiverge => RDiverge
       end
     | TUse ty flag rest =>
-      match decode_dep f rest with
-      | ROk (None, _) => RPanic                           (* dep.DependencyType() on a nil interface *)
+      match decode_dep f depth rest with
+      | ROk (None, _) => RErr
       | ROk (Some (DAtom a), r) => ROk (Some (DGroup ty flag [DAtom a]), r)
       | ROk (Some (DGroup t _ l), r) => if t =? 1 then ROk (Some (DGroup ty flag l), r) else RErr
       | RErr => RErr | RPanic => RPanic | RDiverge => RDiverge
       end
     | TGroup ty rest =>
-      match decode_dep f rest with
-      | ROk (None, _) => RPanic                           (* type assertion on a nil interface *)
-      | ROk (Some (DAtom _), _) => RPanic                 (* type assertion on a *DependAtom *)
+      match decode_dep f depth rest with
+      | ROk (None, _) => RErr
+      | ROk (Some (DAtom _), _) => RErr
       | ROk (Some (DGroup t fl l), r) => if t =? 1 then ROk (Some (DGroup ty fl l), r) else RErr
       | RErr => RErr | RPanic => RPanic | RDiverge => RDiverge
       end
     | TAtom s1 =>
       match raw_parse_at s1 true true with
-      | (AOk p, r) => ROk (Some (DAtom (make_da p)), r)
+      | (AOk p, r) => if not_ws (peek r) then RErr else ROk (Some (DAtom (make_da p)), r)
       | (AErr, _) => RErr
       | (APanic, _) => RPanic
       | (ADiverge, _) => RDiverge
       end
     end
   end
-with decode_seq (fuel : nat) (s : bytes) {struct fuel} : dres (list dep * bytes) :=
+with decode_seq (fuel : nat) (depth : nat) (s : bytes) {struct fuel} : dres (list dep * bytes) :=
   match fuel with
   | O => RDiverge
   | S f =>
-    match decode_dep f s with
+    match decode_dep f depth s with
     | ROk (None, r) => ROk ([], r)
     | ROk (Some d, r) =>
-      match decode_seq f r with
+      match decode_seq f depth r with
       | ROk (l, r') => ROk (d :: l, r')
       | e => e
       end
@@ -139,9 +140,9 @@ with decode_seq (fuel : nat) (s : bytes) {struct fuel} : dres (list dep * bytes)
 
 Definition decode_fuel (s : bytes) : nat := 2 * length s + 4.
 
-(* DecodeDependencies: the rest of the input after the first nil is not looked at *)
+(* DecodeDependencies *)
 Definition decode (s : bytes) : dres (list dep) :=
-  match decode_seq (decode_fuel s) s with
+  match decode_seq (decode_fuel s) O s with
   | ROk (l, _) => ROk l
   | RErr => RErr | RPanic => RPanic | RDiverge => RDiverge
   end.
@@ -149,8 +150,8 @@ Definition decode (s : bytes) : dres (list dep) :=
 (* ---- String() ---- *)
 Definition lparen : bytes := [nb 40].
 Definition group_intro (ty : N) (flag : bytes) : bytes :=
-  if ty =? 5 then flag ++ [nb 32; nb 40]
-  else if ty =? 6 then nb 33 :: flag ++ [nb 32; nb 40]
+  if ty =? 5 then flag ++ [nb 63; nb 32; nb 40]
+  else if ty =? 6 then nb 33 :: flag ++ [nb 63; nb 32; nb 40]
   else if ty =? 1 then lparen
   else if ty =? 2 then [nb 124; nb 124; nb 32; nb 40]
   else if ty =? 3 then [nb 94; nb 94; nb 32; nb 40]
